@@ -792,9 +792,19 @@ def rule_boolthen(text):
             hit = (rs, cl + 1, "(if %s { Some(%s) } else { None })" % (recv, parts[1]))
             break
         if not hit:
+            # `C.then_some(E)` with E a plain place (identifier / field path): eager evaluation of E is unobservable
+            for dot, op, cl in _method_calls(text, m, "then_some"):
+                arg = text[op + 1:cl].strip()
+                if not re.fullmatch(r"[\w.]+(\s+as\s+\w+)?", arg):
+                    continue
+                rs = _receiver_start(m, dot)
+                recv = text[rs:dot].strip()
+                hit = (rs, cl + 1, "(if %s { Some(%s) } else { None })" % (recv, arg))
+                break
+        if not hit:
             return text, apps
         a, b, new = hit
-        apps.append(_app("R-then", text, a, b, new, "definition of bool::then"))
+        apps.append(_app("R-then", text, a, b, new, "definition of bool::then / bool::then_some"))
         text = text[:a] + new + text[b:]
 
 
@@ -1395,6 +1405,66 @@ def rule_cleanupmisc(text):
         (r"let" + ws + r"Some\((\w+)\)" + ws + r"=" + ws + r"(\w+)\.sector" + ws + r"else" + ws + r"\{" + ws + r"continue;" + ws + r"\};",
          r"let \1 = match \2.sector { Some(s_) => s_, None => { continue; } };", "R-letelse", "definition of let-else with a diverging else branch"),
         (r"stats" + ws + r"\." + ws + r"disk_usage" + ws + r"\." + ws + r"fetch_sub\(", "stats.disk_usage.fetch_sub(", "R-ws", "whitespace only"),
+    ]
+    for pat, rep, rname, why in table:
+        n = 0
+        while n < 8:
+            n += 1
+            mm = re.search(pat, text)
+            if not mm:
+                break
+            new = mm.expand(rep)
+            if new == text[mm.start():mm.end()]:
+                break
+            apps.append(_app(rname, text, mm.start(), mm.end(), new, why))
+            text = text[:mm.start()] + new + text[mm.end():]
+    return text, apps
+
+
+def rule_sig_ioret(text):
+    """signature rule for unit io_retire: `&self` -> `&mut self` (interior mutability made explicit)"""
+    apps = []
+    mm = re.search(r"\(\s*&self\b", text)
+    if mm:
+        new = text[mm.start():mm.end()].replace("&self", "&mut self")
+        apps.append(_app("R-sigmut", text, mm.start(), mm.end(), new, "DiskIO mutates the device through a shared reference; `&mut self` lets the contract state that effect (sequential semantics, A3)"))
+        text = text[:mm.start()] + new + text[mm.end():]
+    return text, apps
+
+
+def rule_ioretmisc(text):
+    """retirement / replay one-offs (io.rs, format.rs)"""
+    apps = []
+    ws = r"\s*"
+    table = [
+        (r"for" + ws + r"chunk" + ws + r"in" + ws + r"(\w+)" + ws + r"\." + ws + r"chunks\(" + ws + r"(\w+)" + ws + r"\)" + ws + r"\{",
+         r"let mut ci_: usize = 0; while ci_ < \1.len() { let ce_: usize = min_usize(\2, \1.len() - ci_) + ci_; let chunk = slice_subrange(\1.as_slice(), ci_, ce_); ci_ = ce_;",
+         "R-chunks", "definition of slice::chunks(n) as an index loop: consecutive sub-slices of n elements, the last one shorter"),
+        (r"if" + ws + r"extents" + ws + r"\." + ws + r"iter\(\)" + ws + r"\." + ws + r"any\(" + ws + r"\|\(_," + ws + r"sectors\)\|" + ws + r"\*sectors" + ws + r"==" + ws + r"0" + ws + r"\)",
+         "if any_zero_length(extents)", "R-any", "definition of Iterator::any over a slice of pairs"),
+        (r"extents" + ws + r"\." + ws + r"iter\(\)" + ws + r"\." + ws + r"map\(" + ws + r"\|\(_," + ws + r"sectors\)\|" + ws + r"\(\*sectors\)" + ws + r"\." + ws + r"min\(" + ws + r"RETIREMENT_WRITE_BLOCKS" + ws + r"\)" + ws + r"\)" + ws + r"\." + ws + r"max\(\)",
+         "max_chunk_blocks(extents, RETIREMENT_WRITE_BLOCKS)", "R-maxk", "shim: the largest per-extent chunk size, None for no extents"),
+        (r"#\[cfg\(unix\)\]" + ws + r"if" + ws + r"self\._use_direct_io", "if self._use_direct_io", "R-cfg", "cfg(unix) holds on this platform"),
+        (r"scratch" + ws + r"\." + ws + r"as_mut_slice\(\)" + ws + r"\." + ws + r"fill\(0\)" + ws + r";", "scratch.zero_fill();", "R-handle", "opaque O_DIRECT buffer"),
+        (r"for" + ws + r"&\((\w+)," + ws + r"(\w+)\)" + ws + r"in" + ws + r"(\w+)" + ws + r"\{",
+         r"let mut ei_: usize = 0; while ei_ < \3.len() { let (\1, \2) = \3[ei_]; ei_ = ei_ + 1;", "R-for", "definition of iterating a slice of pairs by reference pattern"),
+        (r"\(" + ws + r"(\w+)" + ws + r"-" + ws + r"(\w+)" + ws + r"\)" + ws + r"\." + ws + r"min\(" + ws + r"(\w+)" + ws + r"\)", r"min_usize(\1 - \2, \3)", "R-arith", "definition of Ord::min on usize (verified shim)"),
+        (r"let" + ws + r"(\w+)" + ws + r"=" + ws + r"&mut" + ws + r"(\w+)\[\.\.(\w+)\]" + ws + r";" + ws + r"fill_retirement_markers\(" + ws + r"\1," + ws + r"(\w+)," + ws + r"(\w+)" + ws + r"\)" + ws + r";" + ws + r"self" + ws + r"\." + ws + r"write_sectors_sync\(" + ws + r"(\w+)," + ws + r"\1" + ws + r"\)" + ws + r"\?" + ws + r";",
+         r"fill_retirement_markers_prefix(\2, \3, \4, \5); self.write_sectors_sync(\6, slice_subrange(\2, 0, \3))?;", "R-subslice",
+         "a mutable prefix `&mut S[..n]` filled and then written: the fill acts on the first n bytes of S, the write reads them (Verus has no mutable sub-slices)"),
+        (r"fill_retirement_marker\(" + ws + r"&mut" + ws + r"(\w+)\[(\w+)\.\.(\w+)" + ws + r"\+" + ws + r"(\w+)\]" + ws + r"," + ws + r"([^;]*?)," + ws + r"([^;,]*?)," + ws + r"\)" + ws + r";",
+         r"fill_retirement_marker_at(\1, \2, \3 + \4, \5, \6);", "R-subslice", "a mutable sub-slice handed to the marker writer: the writer acts on bytes a..b of the buffer"),
+        (r"for" + ws + r"offset" + ws + r"in" + ws + r"0\.\.blocks" + ws + r"\{", "let mut offset: usize = 0; while offset < blocks { ", "R-for", "definition of a counted loop"),
+        (r"let" + ws + r"mut" + ws + r"ordered" + ws + r"=" + ws + r"extents\.to_vec\(\)" + ws + r";" + ws + r"ordered\.sort_unstable_by_key\(" + ws + r"\|extent\|" + ws + r"extent\.0" + ws + r"\)" + ws + r";",
+         "let ordered = sorted_by_start(extents);", "R-sort", "shim: copy + sort by start = a permutation, ascending by start"),
+        (r"for" + ws + r"\((\w+)," + ws + r"(\w+)\)" + ws + r"in" + ws + r"ordered" + ws + r"\{", r"let mut oi_: usize = 0; while oi_ < ordered.len() { let (\1, \2) = ordered[oi_]; oi_ = oi_ + 1;", "R-for",
+         "definition of iterating a Vec of pairs by value as an index loop"),
+        (r"let" + ws + r"Some\(previous\)" + ws + r"=" + ws + r"coalesced\.last_mut\(\)" + ws + r"else" + ws + r"\{" + ws + r"(coalesced\.push\(\(sector," + ws + r"sectors\)\);)" + ws + r"continue;" + ws + r"\};",
+         r"if coalesced.len() == 0 { \1 continue; } let pl_: usize = coalesced.len() - 1; let previous = coalesced[pl_];", "R-lastmut",
+         "definition of Vec::last_mut with a diverging else: the last element, addressed by index"),
+        (r"previous\.1" + ws + r"=" + ws + r"usize::try_from\(" + ws + r"(\w+)" + ws + r"-" + ws + r"previous\.0" + ws + r"\)" + ws + r"\." + ws + r"map_err\(\|_\|" + ws + r"FeoxError::InvalidArgument\)\?" + ws + r";",
+         r"let nl_: usize = usize_from_u64(\1 - previous.0)?; coalesced.set(pl_, (previous.0, nl_));", "R-lastmut",
+         "assignment through the last_mut reference = replacing the last element; usize::try_from(u64) with map_err + ? = a fallible conversion"),
     ]
     for pat, rep, rname, why in table:
         n = 0
